@@ -265,6 +265,7 @@ func main() {
 	flag.IntVar(&o.Cfg.TimeoutMs, "solver-timeout-ms", 30000, "solver timeout per query")
 	flag.StringVar(&o.Cfg.SolverName, "solver", "z3", "z3|z3-new|cvc5")
 	flag.IntVar(&timeoutS, "timeout", 0, "overall time budget in seconds (0 = none)")
+	flag.IntVar(&o.Cfg.PathWorkers, "path-workers", 0, "parallel path workers per harness (0 = auto)")
 	flag.BoolVar(&o.NoNative, "no-native", false, "skip native replays (debugging only)")
 	flag.BoolVar(&o.Verbose, "v", false, "verbose")
 	flag.StringVar(&o.ReplayOnly, "replay", "", "replay one recorded counterexample natively and exit")
@@ -350,6 +351,12 @@ func runCheck(o *Options) int {
 	if len(jobs) == 0 {
 		fmt.Println("ERROR: no harness matches")
 		return 2
+	}
+	if o.Cfg.PathWorkers == 0 {
+		o.Cfg.PathWorkers = 1
+		if len(jobs) < o.Workers {
+			o.Cfg.PathWorkers = (o.Workers + len(jobs) - 1) / len(jobs)
+		}
 	}
 	results := make([]*HarnessStats, len(jobs))
 	var wg sync.WaitGroup
